@@ -543,5 +543,38 @@ def runSteps (c : Cfg α) (tf dtminS : α) : St α → α → List (StepAns α) 
       | some o => runSteps c tf dtminS o.st (dtmaxNow c s tf dtmaxS) rest
     else some (s, dtmaxS)
 
+/-! ## `setup()`: the state the first step starts from
+
+`PrecipitateBase.setup` (initial composition and temperature into row 0) and `PrecipitateModel.setup`: every PBM reset to its
+original grid, a copy `Y` of the row taken BEFORE the equilibrium compositions are written into it, lookup table built at the
+recorded temperature (binary) or zero tables plus the equilibrium compositions the backend returns (multicomponent), nucleation
+terms on the empty distributions, zero growth field, growth-rate call, `setSlice(Y, n)`.  `eqMulti` are the answers of the
+per-phase `getGrowthAndInterfacialComposition` calls of the multicomponent branch (`none` = no result). -/
+def setupState (c : Cfg α) (s : St α) (a : EvalAns α) (eqMulti : List (Option (List α × List α))) : St α :=
+  let rest := s.hist.tail
+  let row1 : Slice α := { s.cur c.nElem with comp := c.x0, temp := a.T }
+  let ph0 := s.ph.map (fun ps => { ps with grid := Grid.reset ps.grid true })
+  let s0 : St α := { s with ph := ph0, hist := row1 :: rest }
+  let sr : St α × Slice α :=
+    if c.binary then
+      let s1 := createLookup row1.temp a.table s0
+      (s1, { row1 with ph := row1.ph.mapIdx (fun p yp => { yp with xEqA := s1.lookEqA.getD p [], xEqB := s1.lookEqB.getD p [] }) })
+    else
+      ({ s0 with ph := ph0.map (fun ps => { ps with xaT := List.replicate c.nElem (zerosL (ps.grid.bins + 1)),
+                                                      xbT := List.replicate c.nElem (zerosL (ps.grid.bins + 1)) }) },
+       { row1 with ph := row1.ph.mapIdx (fun p yp => match eqMulti.getD p none with
+                                                      | some (ea, eb) => { yp with xEqA := ea, xEqB := eb }
+                                                      | none => yp) })
+  let s1 : St α := { sr.1 with hist := sr.2 :: rest }
+  let y1 := nucleation c s1 row1.time (s1.ph.map (fun ps => ps.grid.psd)) a row1
+  let s2 : St α := { s1 with ph := s1.ph.map (fun ps => { ps with growth := zerosL (ps.grid.bins + 1) }) }
+  let g := growthRate c s2 a y1
+  { g.1 with hist := g.2 :: rest }
+
+/-- a whole `solve` history from construction: `setup`, then the loop -/
+def runFromSetup (c : Cfg α) (s : St α) (a0 : EvalAns α) (eqMulti : List (Option (List α × List α))) (tf dtminS dtmaxS : α)
+    (steps : List (StepAns α)) : Option (St α × α) :=
+  runSteps c tf dtminS (setupState c s a0 eqMulti) dtmaxS steps
+
 end generic
 end KawinV.KWNFull
